@@ -143,6 +143,44 @@ func genHistory(rng *rand.Rand) *History {
 	return h
 }
 
+var notifySeqs = [][]string{
+	{"change", "change"}, {"change", "error"}, {"error", "change"}, {"error", "error"},
+	// triples: at most one notification after the first error (a third one would still be waiting when the
+	// resolver closes its channel on shutdown — outside the provider contract)
+	{"change", "change", "change"}, {"change", "change", "error"}, {"change", "error", "change"}, {"change", "error", "error"},
+}
+
+// genDoubleNotify: two or three watcher notifications back to back while the run loop is NOT in its select:
+// fired (by a harness goroutine) from inside Start of a component of the generation being brought up, or
+// from inside Shutdown of a component of the generation being torn down by a reload. No other triggers and
+// only single-event reload rounds, so that the resolver's one-slot channel is empty at the firing point.
+func genDoubleNotify(rng *rand.Rand, k int64) *History {
+	h := &History{Class: "double-notify"}
+	seq := notifySeqs[k%int64(len(notifySeqs))]
+	point := (k / int64(len(notifySeqs))) % 5
+	for g := 1; g <= 4; g++ {
+		h.Gens = append(h.Gens, GenPlan{NRecv: 1 + rng.Intn(3), NExp: 1 + rng.Intn(2)})
+	}
+	gen, phase := 1, "start"
+	switch point {
+	case 1:
+		gen = 2
+	case 2:
+		phase = "shutdown" // generation 1 torn down by the first reload
+	case 3:
+		gen, phase = 2, "shutdown"
+	case 4:
+		gen = 3
+	}
+	names := compNames(h.Gens[gen-1])
+	h.Gens[gen-1].Triggers = []Trigger{{Phase: phase, Comp: names[rng.Intn(len(names))], Actions: []Action{{Kind: "wseq", Seq: seq}}}}
+	for i := 0; i < 3; i++ {
+		h.Rounds = append(h.Rounds, Round{[]Action{{Kind: []string{"watch", "sighup"}[rng.Intn(2)]}}})
+	}
+	h.Final.Actions = []Action{genAction(rng, stopPool[:6], false)}
+	return h
+}
+
 // directed reproducers of C20-a
 func directed(i int) *History {
 	base := []GenPlan{{NRecv: 2, NExp: 1}}
@@ -306,6 +344,31 @@ func (r *run) check() {
 			if e.Gen > maxGenSeen {
 				maxGenSeen = e.Gen
 			}
+		}
+	}
+	// (2b) a change notification that was delivered (and no watch error delivered before it) is followed by a
+	// new Retrieve: the configuration is fetched again after it changed
+	errDelivered := false
+	for i, e := range evs {
+		if e.Kind != "notify-delivered" {
+			continue
+		}
+		if e.Info == "error" {
+			errDelivered = true
+			continue
+		}
+		if errDelivered || startFailed || badConfig || stopFailedReload {
+			continue
+		}
+		again := false
+		for _, x := range evs[i+1:] {
+			if x.Kind == "retrieve" {
+				again = true
+				break
+			}
+		}
+		if !again {
+			r.problem("reload-ignored", fmt.Sprintf("a configuration-change notification was delivered while the collector was starting/reloading (event %d) and the configuration was never retrieved again", e.Seq), "round", "wseq")
 		}
 	}
 	// (3) provider
@@ -585,6 +648,7 @@ func runHistory(c *driver.Ctx, h *History, limit time.Duration) (hung, c20a bool
 		c.Observe("final_stop_"+a.Kind, 1)
 	}
 	c.Observe("events_logged", int64(nEv))
+	c.Observe("watcher_notifications_delivered_back_to_back", r.seqNotified.Load())
 	c.Observe("fatal_reports_made", r.fatalPlanned.Load())
 	c.Observe("fatal_events_accepted_seen_by_watcher", r.fatalAccepted.Load())
 	c.Observe("idle_polls_goroutine_dumps", r.polls.Load())
@@ -601,6 +665,11 @@ func runHistory(c *driver.Ctx, h *History, limit time.Duration) (hung, c20a bool
 	c.Distinct("interleavings", order.String())
 	c.Distinct("state_sample_sequences", strings.Join(states, ">"))
 	for _, p := range problems {
+		if p.sub == "harness-contract" {
+			c.Inconclusive("harness broke the provider contract (notification met a closed channel)")
+			c.Note("%s; history %s", p.what, canon)
+			continue
+		}
 		c.Violation(p.sub, p.what+"; history "+canon, r.witness(""), p.sig...)
 	}
 	if len(problems) == 0 {
@@ -680,16 +749,16 @@ func run_(c *driver.Ctx) {
 	var g int64
 	// C20-a present in this tree? Assumed so until a deterministic directed reproducer of this child (1: fatal
 	// during shutdown, 2: fatal inside Start) says otherwise; 0 (two concurrent reports) depends on the schedule
-	// and is retried. quick: reproducers 0..2 run on shards 0..2 of the race variant; thorough: additionally
-	// every child runs reproducer 2 first, to learn whether histories with extra FatalError reports may be explored.
+	// and is retried. Reproducers 0..2 run on shards 0..2 (quick: race variant only); additionally every child
+	// runs reproducer 2 first, to learn whether histories with extra FatalError reports may be explored.
 	defect := true
 	for i := 0; i < 3; i, g = i+1, g+1 {
 		mine := c.Mine(g)
 		if c.Only < 0 && c.Tier == "quick" && c.Variant != "race" {
 			mine = false
 		}
-		if c.Thorough() && i == 2 && c.Only < 0 {
-			mine = c.Want(g)
+		if i == 2 && c.Only < 0 {
+			mine = c.Want(g) // the deterministic probe runs first in every child (milliseconds on a repaired tree)
 		}
 		if !mine {
 			continue
@@ -706,8 +775,19 @@ func run_(c *driver.Ctx) {
 			defect = hung
 		}
 		if !hung {
-			c.Note("directed reproducer %d (%s) did not hang in this child", i, directed(i).Class)
+			c.Observe("directed_C20a_reproducers_that_did_not_hang", 1)
 		}
+	}
+	// back-to-back watcher notifications while the loop is busy (all ordered pairs over {change, error}, four
+	// triples) x five in-reload firing points
+	nn := int64(c.N(960, 16000))
+	for i := int64(0); i < nn; i, g = i+1, g+1 {
+		if !c.Mine(g) {
+			continue
+		}
+		h := genDoubleNotify(c.CaseRand(g), i)
+		c.Observe("double_notify_histories", 1)
+		runHistory(c, h, limit)
 	}
 	n := int64(c.N(4800, 72000))
 	steered := int64(0)
@@ -741,7 +821,7 @@ func main() {
 	driver.Main(driver.Spec{
 		ID:    "C20",
 		Level: "exploration",
-		Rule: "a case is one event history driven through one otelcol.Collector (one collector at a time per child process because signals are process-wide): generation plans (1-3 receivers, 1-2 exporters, a component failing in Start or Shutdown, invalid configuration, retrieve error, actions triggered from inside Start/Shutdown of a chosen component) + 0-6 rounds fired with the run loop idle (config change, SIGHUP, both, reload together with a stop event) + a final stop (Shutdown() x1-4 goroutines, SIGINT, SIGTERM, context cancel, watcher error, FatalError status, or several together). " +
+		Rule: "a case is one event history driven through one otelcol.Collector (one collector at a time per child process because signals are process-wide): generation plans (1-3 receivers, 1-2 exporters, a component failing in Start or Shutdown, invalid configuration, retrieve error, actions triggered from inside Start/Shutdown of a chosen component) + 0-6 rounds fired with the run loop idle (config change, SIGHUP, both, reload together with a stop event) + a final stop (Shutdown() x1-4 goroutines, SIGINT, SIGTERM, context cancel, watcher error, FatalError status, or several together); plus a class of histories that deliver two or three watcher notifications back to back (all ordered pairs over {change, error}) from inside Start/Shutdown of a component while the loop is starting or reloading. " +
 			"Non-trivial: the executed history contains a reload (a second Retrieve) or at least two stop events; distinct = canonical history",
 		Assumptions: []string{
 			"GetState() can only be sampled: first sample Starting, nothing but Closed after Closed, no component created/started once Closed was seen, Closed after every run that ended on a stop path",
